@@ -10,7 +10,9 @@ import (
 	"fmt"
 	"math/big"
 	"os"
+	"runtime"
 	"strings"
+	"sync"
 
 	"github.com/trustbloc/sidetree-go/pkg/commitment"
 	"github.com/trustbloc/sidetree-go/pkg/jws"
@@ -213,8 +215,57 @@ var jwsPayloads = [][]byte{
 	bytes.Repeat([]byte("long payload "), 40),
 }
 
-// shapedKey finds a key whose coordinates have the wanted shape.
+var shapedCache sync.Map
+
+// shapedKey finds a key whose coordinates have the wanted shape (searching on all cores for the
+// rare shapes).
 func shapedKey(pool *KeyPool, kt, shape string) (*Key, error) {
+	ck := fmt.Sprintf("%d/%s/%s", pool.seed, kt, shape)
+	if k, ok := shapedCache.Load(ck); ok {
+		return k.(*Key), nil
+	}
+
+	if shape == "x_two_leading_zeros" || shape == "both_leading_zero" {
+		found := make(chan *Key, 64)
+		stop := make(chan struct{})
+
+		var wg sync.WaitGroup
+
+		nw := runtime.NumCPU()
+		for w := 0; w < nw; w++ {
+			wg.Add(1)
+
+			go func(w int) {
+				defer wg.Done()
+
+				for i := w; i < 4000000; i += nw {
+					select {
+					case <-stop:
+						return
+					default:
+					}
+
+					k := newKeyNoJWK(pool.seed, kt, fmt.Sprintf("c16-%s-%d", shape, i))
+					pk := k.Pub.(*ecdsa.PublicKey)
+					wd := (pk.Curve.Params().BitSize + 7) / 8
+					x, y := pk.X.FillBytes(make([]byte, wd)), pk.Y.FillBytes(make([]byte, wd))
+
+					if (shape == "x_two_leading_zeros" && x[0] == 0 && x[1] == 0) || (shape == "both_leading_zero" && x[0] == 0 && y[0] == 0) {
+						found <- newKey(pool.seed, kt, fmt.Sprintf("c16-%s-%d", shape, i))
+						return
+					}
+				}
+			}(w)
+		}
+
+		k := <-found
+		close(stop)
+		wg.Wait()
+		shapedCache.Store(ck, k)
+
+		return k, nil
+	}
+
 	for i := 0; i < 40000; i++ {
 		k := newKey(pool.seed, kt, fmt.Sprintf("c16-%s-%d", shape, i))
 
